@@ -635,3 +635,68 @@ def rule_cancel_refcount(ctx):
 
 
 RULES.append(("C13.n", "CancelToken::cancel releases its reference exactly once (state update table + deferred release)", rule_cancel_refcount))
+
+
+def rule_state_updates(ctx):
+    """Every conditional state transition of the task (fetch_update closures) equals its reviewed table: for each branch, the
+    mask conditions on the old state and the new state as (bits set, bits kept, amount subtracted). These closures are pure data:
+    a wrong constant or operator in one of them keeps every call and branch of the module in place."""
+    P = ctx.prog
+    C = consts(P)
+    if None in C.values():
+        return ctx.missing("task state constants")
+    M = (1 << 64) - 1
+    NP = M & ~C["POLLING"]
+    want = {
+        TASK + "promise::poll": {
+            ("Some", (C["CLOSED"], M, 0), (("==", C["POLLING"] | C["CLOSED"], 0),)),
+            ("None", None, (("!=", C["POLLING"] | C["CLOSED"], 0),)),
+        },
+        TASK + "runnable::run": {
+            ("None", None, ()),
+            ("Some", (0, NP, 0), (("!=", C["CLOSED"], C["CLOSED"]), ("!=", C["REF_MASK"], 0))),
+            ("Some", (C["CLOSED"] & NP, NP, 0), ()),
+        },
+        TASK + "runnable::cancel": {
+            ("Some", (C["CLOSED"] & NP, NP, 0), ()),
+        },
+    }
+    got = {}
+    sites = {}
+    for b in task_bodies(P):
+        for fu in b.calls("^" + ATOM + "fetch_update$"):
+            for g in fu.node.get("gdefs") or []:
+                cb = P.body(norm(g))
+                if cb is None:
+                    continue
+                owner = K.owner_fn(P, cb).name
+                for r in K.ret_assigns(cb):
+                    if r.is_term or r.node["r"]["r"] != "agg":
+                        got.setdefault(owner, set()).add(("?", None, ()))
+                        continue
+                    rv = r.node["r"]
+                    eff = None
+                    if rv.get("variant") == "Some":
+                        o = cb.origins(rv["ops"][0], r)
+                        eff = _state_effect(next(iter(o))) if len(o) == 1 else "?"
+                    conds = []
+                    for c in cb.conditions(r):
+                        mc = mask_cmp(c)
+                        if mc:
+                            conds.append((mc[0], mc[2], mc[3]))
+                        elif c.kind == "call":
+                            conds.append(("call", c.data[0], c.data[1]))
+                    got.setdefault(owner, set()).add((rv.get("variant"), eff, tuple(sorted(conds, key=str))))
+                    sites.setdefault(owner, []).append(r)
+    for owner, table in sorted(want.items()):
+        t = set((v, e, tuple(sorted(c, key=str))) for v, e, c in table)
+        ctx.ob("state-update-table|%s" % owner, got.get(owner) == t,
+               "the fetch_update closure(s) of %s implement the reviewed transition table (found %s)" % (
+                   owner, sorted(((v, tuple(hex(x) for x in e) if isinstance(e, tuple) else e, c) for v, e, c in got.get(owner, set())), key=str)),
+               sites.get(owner, [owner]))
+    extra = sorted(set(got) - set(want) - {TASK + "cancel_token::cancel"})
+    ctx.ob("state-update-table|no-unreviewed-transition", not extra,
+           "every fetch_update closure of the task module has a reviewed table (unreviewed: %s)" % extra, [s for o in extra for s in sites.get(o, [])])
+
+
+RULES.append(("C13.o", "conditional task state transitions equal their reviewed tables", rule_state_updates))
